@@ -70,6 +70,25 @@ CHECKS = {
         note='lines < 64 KiB; in-memory transport (no TLS handshake); '
              'internal errors are classified by exception class + innermost '
              'pymap function'),
+    'C08': dict(
+        category='exploration', design='4/C08',
+        technique='runtime monitor: sys.addaudithook filesystem monitor with '
+                  'veto (sanitizer-style) + before/after snapshots of the '
+                  "other user's tree, credential files and a canary; other "
+                  "user's observable view on every backend",
+        text='User A issues commands with hostile mailbox names, references '
+             'and patterns (., .., empty, doubled/leading/trailing '
+             'delimiters, NUL, long, non-ASCII, ../bob ...) on maildir ++, '
+             'maildir fs and dict while the audit-hook monitor records every '
+             'filesystem call made by the server: each resolved path must '
+             "stay inside A's mailbox directory (never rename/remove the "
+             'directory itself); credential files may only be read at LOGIN; '
+             "user B's tree, the credential files, a canary file and B's view "
+             'through his own session must be unchanged afterwards.',
+        note='CPython audit events + wrapped os.stat/lstat/access; stores in '
+             'a sacrificial tree with mutations outside it vetoed; reads '
+             'under interpreter/library prefixes are not judged; symlink '
+             'attacks by a local user and redis are out of scope'),
 }
 
 NOT_YET = 'check not built yet in this round (see DESIGN.md section 4)'
